@@ -405,9 +405,9 @@ func init() {
 			}
 		}})
 
-	register(&Rule{ID: "O2.rga", Min: 2, Text: "RGA insertion rule: the skip loops of RGATreeList.findNextBeforeExecutedAt and RGATreeSplit.findNodeWithSplit continue exactly on the edge where the right neighbour's position/creation ticket is After the inserting ticket parameter and leave on the other edge",
+	register(&Rule{ID: "O2.rga", Min: 2, Text: "RGA insertion rule: the skip loops of RGATreeList.findNextBeforeExecutedAt, RGATreeSplit.findNodeWithSplit and Tree.FindTreeNodesWithSplitText (step 04, over the tombstone-inclusive sibling list) continue exactly on the edge where the right neighbour's position/creation ticket is After the inserting ticket parameter and leave on the other edge",
 		Run: func(x *Ctx) {
-			for _, spec := range []string{crdtPkg + ".(*RGATreeList).findNextBeforeExecutedAt", crdtPkg + ".(*RGATreeSplit).findNodeWithSplit"} {
+			for _, spec := range []string{crdtPkg + ".(*RGATreeList).findNextBeforeExecutedAt", crdtPkg + ".(*RGATreeSplit).findNodeWithSplit", crdtPkg + ".(*Tree).FindTreeNodesWithSplitText"} {
 				fn := x.fn(spec)
 				if fn == nil {
 					continue
@@ -419,8 +419,39 @@ func init() {
 				}
 				in := vpIsParam(tps[len(tps)-1])
 				isList := strings.Contains(spec, "RGATreeList")
+				isTree := strings.Contains(spec, "(*Tree)")
+				inclusive := func(c ssa.CallInstruction) bool {
+					args := c.Common().Args
+					sl, ok := args[len(args)-1].(*ssa.Slice)
+					if !ok {
+						return false
+					}
+					al, isA := sl.X.(*ssa.Alloc)
+					if !isA {
+						return false
+					}
+					for _, r := range *al.Referrers() {
+						if ia, isIA := r.(*ssa.IndexAddr); isIA {
+							for _, rr := range *ia.Referrers() {
+								if st, isSt := rr.(*ssa.Store); isSt && vpTrue.match(st.Val) {
+									return true
+								}
+							}
+						}
+					}
+					return false
+				}
+				var scanned []ssa.CallInstruction
 				neighbour := VP{"right neighbour's ticket", func(v ssa.Value) bool {
 					fromNext := prog.DependsOn(v, func(w ssa.Value) bool {
+						if isTree {
+							c, ok := prog.Strip(w).(*ssa.Call)
+							if ok && prog.CallObj(c) != nil && prog.CallObj(c).Name() == "Children" {
+								scanned = append(scanned, c)
+								return true
+							}
+							return false
+						}
 						f := prog.LoadedField(w)
 						return f != nil && f.Name() == "next"
 					})
@@ -477,6 +508,15 @@ func init() {
 					}
 				}
 				_ = found
+				if isTree {
+					incl := len(scanned) > 0
+					for _, c := range scanned {
+						if !inclusive(c) {
+							incl = false
+						}
+					}
+					x.check(incl, "func="+prog.FnName(fn)+" scans-siblings-including-removed", x.fpos(fn), "the sibling list includes tombstones", "the scan over concurrent siblings no longer includes removed ones: a replica that still holds a tombstone and one that purged it order a concurrent insert differently")
+				}
 				x.check(ok, "func="+prog.FnName(fn)+" skip-while-neighbour-After-incoming", where,
 					"the loop skips exactly the neighbours whose ticket is After the inserting one",
 					"the skip loop does not continue exactly while neighbour.After(incoming): concurrent inserts at one position are ordered differently on different replicas")
